@@ -1,6 +1,7 @@
 package main
 
 import (
+	"time"
 	"fmt"
 	"go/types"
 	"os"
@@ -181,11 +182,20 @@ func (p *Prog) makeReplay(o *Obligation, prop, repo, outDir string) *ReplayRecor
 		rep.Note = "replay disabled (development run)"
 		return rep
 	}
+	if !p.replayDeadline.IsZero() && time.Now().After(p.replayDeadline) {
+		rep.Note = "the obligation stopped proving (" + r.Status + "); the time budget of this run for counterexample search was used up by earlier failures, none attempted for this one"
+		return rep
+	}
 	if r.Status != "sat" {
 		// candidate-model search: drop the quantified assumptions (weaker problem, more models); a model found
 		// this way is only a candidate and counts solely if it reproduces on the real code.
 		rel := p.relax(o)
-		rr := p.u.Solve(rel, filepath.Dir(r.File), 8, false)
+		smtDir := filepath.Dir(r.File)
+		if r.File == "" {
+			smtDir = filepath.Join(outDir, "smt", prop)
+			os.MkdirAll(smtDir, 0o755)
+		}
+		rr := p.u.Solve(rel, smtDir, 8, false)
 		if rr.Status != "sat" {
 			rep.Note = "the obligation stopped proving; the solver returned no model (" + r.Status + "; relaxed search: " + rr.Status + ")"
 			if ok2, note2 := p.searchCounterexample(o, rep, repo, filepath.Join(outDir, "replay", prop)); ok2 {
